@@ -60,7 +60,43 @@ def gen_barcode_case(rng):
     return dict(paired=False, opts=opts, io=io, recs1=recs, recs2=None, fasta_out=False, interleaved_in=False)
 
 
-def gen_case(rng):
+def gen_large_case(rng):
+    """A few MB of input in blocks of long and of very short reads, so that the amount a chunk contributes to each
+    output file varies between nothing and several hundred KB (buffers of the workers are reused across chunks)."""
+    ad = G.rnd(rng, 20)
+    paired = rng.random() < 0.3
+    recs1, recs2 = [], []
+    i = 0
+    for b in range(rng.randint(5, 8)):
+        long_block = b % 2 == 0
+        for _ in range(rng.randint(900, 1600) if long_block else rng.randint(1500, 3000)):
+            def one():
+                if long_block:
+                    s = G.rnd(rng, rng.randint(60, 100))
+                    if rng.random() < 0.5:
+                        s = s[:rng.randint(20, len(s))] + ad[:rng.randint(8, 20)] + G.rnd(rng, rng.randint(0, 15))
+                else:
+                    s = G.rnd(rng, rng.randint(5, 12))
+                return s
+            s1 = one()
+            recs1.append((f"r{i} c", s1, "I" * len(s1)))
+            if paired:
+                s2 = one()
+                recs2.append((f"r{i} d", s2, "H" * len(s2)))
+            i += 1
+    opts = ["-a", f"ad={ad}", "-O", "5", "-m", "20"]
+    if paired:
+        opts += ["-A", f"bd={ad}", "--too-short-output", "ts1.fastq", "--too-short-paired-output", "ts2.fastq"]
+        io = ["-o", "out1.fastq", "-p", "out2.fastq"]
+    else:
+        opts += ["--too-short-output", "ts1.fastq", "--info-file", "info.tsv", "--rest-file", "rest.txt"]
+        io = ["-o", "out1.fastq"]
+    return dict(paired=paired, opts=opts, io=io, recs1=recs1, recs2=recs2 if paired else None, fasta_out=False, interleaved_in=False, large=True)
+
+
+def gen_case(rng, large=False):
+    if large:
+        return gen_large_case(rng)
     if rng.random() < 0.2:
         return gen_barcode_case(rng)
     paired = rng.random() < 0.5
@@ -201,7 +237,9 @@ def signature(run):
 
 def one_case(ctx, k):
     rng = ctx.rng("c06", k)
-    c = gen_case(rng)
+    c = gen_case(rng, large=(k % 100000) % 25 == 1)
+    if c.get("large"):
+        ctx.count("large_input_cases")
     d = os.path.join(ctx.scratch, f"c{k}")
     os.makedirs(d, exist_ok=True)
     try:
